@@ -99,18 +99,7 @@ fn run_wpar(args: &Args, cases: &[PCase], items: &[Value], tag: &str) -> Result<
     let _ = std::fs::remove_dir_all(&dir);
     std::fs::create_dir_all(&dir).map_err(|e| e.to_string())?;
     let cpath = dir.join("cases.bin");
-    {
-        let mut f = std::io::BufWriter::new(std::fs::File::create(&cpath).map_err(|e| e.to_string())?);
-        for c in cases {
-            let exp = serial(c);
-            f.write_all(&(c.wasm.len() as u32).to_le_bytes()).unwrap();
-            f.write_all(&c.wasm).unwrap();
-            f.write_all(&[c.preserve_ct as u8, exp.is_ok() as u8]).unwrap();
-            let e = exp.unwrap_or_default();
-            f.write_all(&(e.len() as u32).to_le_bytes()).unwrap();
-            f.write_all(&e).unwrap();
-        }
-    }
+    write_cases(&cpath, cases)?;
     let ipath = dir.join("items.json");
     std::fs::write(&ipath, serde_json::to_string(items).unwrap()).map_err(|e| e.to_string())?;
     let exe = wpar_path(args);
@@ -142,23 +131,105 @@ fn run_wpar(args: &Args, cases: &[PCase], items: &[Value], tag: &str) -> Result<
     Ok(out)
 }
 
+/// inputs for the free-running supplement: many functions in few size classes (ties in the size
+/// sort), so that any order-sensitivity of the per-function work shows
+pub fn real_inputs() -> Vec<PCase> {
+    let mut v = vec![];
+    for (n, classes) in [(64usize, 1usize), (200, 4), (600, 3)] {
+        let sizes: Vec<usize> = (0..n).map(|i| 1 + i % classes).collect();
+        v.push(PCase { name: format!("{} functions in {} size classes", n, classes), wasm: build(&sizes, &[], false, true), preserve_ct: true, n_funcs: n });
+    }
+    let sizes: Vec<usize> = (0..150).map(|i| 1 + i % 2).collect();
+    v.push(PCase { name: "150 functions, invalid body #149".into(), wasm: build(&sizes, &[149], false, false), preserve_ct: false, n_funcs: 150 });
+    v.push(PCase { name: "150 functions, data + memory.init".into(), wasm: build(&sizes, &[], true, false), preserve_ct: false, n_funcs: 150 });
+    v
+}
+
+fn write_cases(path: &std::path::Path, cases: &[PCase]) -> Result<(), String> {
+    let mut f = std::io::BufWriter::new(std::fs::File::create(path).map_err(|e| e.to_string())?);
+    for c in cases {
+        let exp = serial(c);
+        f.write_all(&(c.wasm.len() as u32).to_le_bytes()).unwrap();
+        f.write_all(&c.wasm).unwrap();
+        f.write_all(&[c.preserve_ct as u8, exp.is_ok() as u8]).unwrap();
+        let e = exp.unwrap_or_default();
+        f.write_all(&(e.len() as u32).to_le_bytes()).unwrap();
+        f.write_all(&e).unwrap();
+    }
+    Ok(())
+}
+
+/// SAMPLING supplement on the real rayon-core (labelled as such in the evidence)
+fn run_real(args: &Args, ev: &mut Ev, tier: Tier) -> Vec<Violation> {
+    let mut viol = vec![];
+    let exe = args.verif.join("harness-par-real/target/verif/wreal");
+    if !exe.exists() {
+        ev.note("free-running supplement (wreal) not built; skipped");
+        return viol;
+    }
+    let mut cases = real_inputs();
+    cases.extend(inputs(Tier::Quick));
+    let dir = args.verif.join("work").join("c09").join("real");
+    let _ = std::fs::create_dir_all(&dir);
+    let cpath = dir.join("cases.bin");
+    if write_cases(&cpath, &cases).is_err() {
+        return viol;
+    }
+    let repeats = if tier == Tier::Quick { 3 } else { 20 };
+    let o = Command::new(&exe).arg(&cpath).arg(repeats.to_string()).stdout(Stdio::piped()).stderr(Stdio::null()).output();
+    let _ = std::fs::remove_dir_all(&dir);
+    let o = match o {
+        Ok(o) => o,
+        Err(e) => {
+            ev.note(format!("wreal failed to start: {}", e));
+            return viol;
+        }
+    };
+    let mut runs = 0u64;
+    for l in String::from_utf8_lossy(&o.stdout).lines() {
+        if let Ok(v) = serde_json::from_str::<Value>(l) {
+            runs += v["runs"].as_u64().unwrap_or(0);
+            if v["verdict"] == "diff" {
+                let k = v["case"].as_u64().unwrap_or(0) as usize;
+                let c = &cases[k];
+                let case = Case {
+                    family: "parallel-free-running".into(),
+                    coords: format!("{} RAYON threads={}", c.name, v["threads"]),
+                    wasm: c.wasm.clone(),
+                    cfg: json!({"free_running": true, "threads": v["threads"], "preserve_ct": c.preserve_ct}),
+                };
+                let d = v["detail"].as_str().unwrap_or("");
+                viol.push(Violation::new("C09", format!("{}:free-running", sig_of(d)), format!("{} (real rayon-core, {} threads; sampling supplement)", d, v["threads"]), &case));
+            }
+        }
+    }
+    ev.extra.insert(
+        "free_running_supplement".into(),
+        json!({"kind": "SAMPLING (not exhaustive, not the deciding step)", "runs": runs, "thread_counts": "1..=16", "repeats_per_count": repeats, "inputs": cases.len(),
+               "why": "interleavings inside one rayon task (e.g. rayon's par_bridge) are invisible to the task-granular explorer; any difference found here is a real difference"}),
+    );
+    ev.transitions += runs;
+    viol
+}
+
 pub fn plan(tier: Tier, cases: &[PCase]) -> Vec<Value> {
     let mut items = vec![];
     let full_n = if tier == Tier::Quick { 3 } else { 4 };
+    let cap_ms: u64 = if tier == Tier::Quick { 20_000 } else { 600_000 };
     for (k, c) in cases.iter().enumerate() {
         for t in [1usize, 2, 3, 4, 16] {
             for migrated in [false, true] {
                 if c.n_funcs <= full_n {
-                    items.push(json!({"case": k, "threads": t, "migrated": migrated, "mode": "full", "cap": 400000}));
+                    items.push(json!({"case": k, "threads": t, "migrated": migrated, "mode": "full", "cap": 400000, "cap_ms": cap_ms}));
                 } else {
                     // deviation-bounded + each fan-out exhaustively with the others on the default order
                     if migrated && t != 4 {
                         continue;
                     }
-                    items.push(json!({"case": k, "threads": t, "migrated": migrated, "mode": "dev", "bound": 2, "cap": 60000}));
+                    items.push(json!({"case": k, "threads": t, "migrated": migrated, "mode": "dev", "bound": 2, "cap": 60000, "cap_ms": cap_ms}));
                     if t == 4 || t == 2 {
                         for f in 1..=3 {
-                            items.push(json!({"case": k, "threads": t, "migrated": migrated, "mode": "fanout", "fanout": f, "cap": 60000}));
+                            items.push(json!({"case": k, "threads": t, "migrated": migrated, "mode": "fanout", "fanout": f, "cap": 60000, "cap_ms": cap_ms}));
                         }
                     }
                 }
@@ -206,6 +277,29 @@ fn audit(repo: &std::path::Path) -> Vec<String> {
 }
 
 fn recheck(args: &Args, c: &Case) -> Vec<Violation> {
+    if c.cfg.get("free_running").is_some() {
+        // a schedule of the free-running pool cannot be replayed; re-run the same input with more
+        // repeats: it must fail again to be reported
+        let exe = args.verif.join("harness-par-real/target/verif/wreal");
+        let pc = PCase { name: c.coords.clone(), wasm: c.wasm.clone(), preserve_ct: c.cfg["preserve_ct"].as_bool().unwrap_or(false), n_funcs: 0 };
+        let dir = args.verif.join("work").join("c09").join(format!("real-replay{}", std::process::id()));
+        let _ = std::fs::create_dir_all(&dir);
+        let cpath = dir.join("cases.bin");
+        let _ = write_cases(&cpath, &[pc]);
+        let o = Command::new(&exe).arg(&cpath).arg("40").output();
+        let _ = std::fs::remove_dir_all(&dir);
+        if let Ok(o) = o {
+            for l in String::from_utf8_lossy(&o.stdout).lines() {
+                if let Ok(v) = serde_json::from_str::<Value>(l) {
+                    if v["verdict"] == "diff" {
+                        let d = v["detail"].as_str().unwrap_or("");
+                        return vec![Violation::new("C09", format!("{}:free-running", sig_of(d)), d.to_string(), c)];
+                    }
+                }
+            }
+        }
+        return vec![];
+    }
     let pc = PCase { name: c.coords.clone(), wasm: c.wasm.clone(), preserve_ct: c.cfg["preserve_ct"].as_bool().unwrap_or(false), n_funcs: 0 };
     let item = json!({"case": 0, "threads": c.cfg["threads"], "migrated": c.cfg["migrated"], "mode": "replay", "schedule": c.cfg["schedule"]});
     match run_wpar(args, &[pc], &[item], &format!("replay{}", std::process::id())) {
@@ -285,6 +379,7 @@ pub fn run(args: &Args) -> i32 {
         ev.cap_hit = true;
         ev.note(format!("{} exploration items hit their schedule cap; below the cap exploration is complete in DFS order", capped));
     }
+    viol.extend(run_real(args, &mut ev, args.tier));
     let hits = audit(&args.repo);
     ev.extra.insert(
         "task_granularity_audit".into(),
